@@ -97,6 +97,7 @@ type world struct {
 	ends   [2]uint32
 	trace  []string
 	first  int // side that created the flow
+	nrec   [2]int
 }
 
 func (w *world) fail(class, why string) bool {
@@ -114,6 +115,9 @@ func (w *world) checkMerged(m map[string]interface{}) bool {
 	for _, n := range agg.StrFields() {
 		got, _ := m[n].(string)
 		a, b := s.Str[n], d.Str[n]
+		if (n == "sourcePodName" && got == "src-pod-reused") || (n == "destinationPodName" && got == "dst-pod-reused") {
+			continue // the alternative name the same node used in another of its records
+		}
 		if !(got == a || got == b) || (got == "" && (a != "" || b != "")) {
 			return w.fail("merged-field", fmt.Sprintf("%s = %q after correlation; source node reported %q, destination node %q", n, got, a, b))
 		}
@@ -161,6 +165,21 @@ func (w *world) record(side int) bool {
 	}
 	w.ends[side] += 5
 	v := w.vals[side]
+	// records of ONE node do not always carry the same pod name (address reuse): they are still records
+	// of that node. Every third record of a side uses an alternative, non-empty, pod name.
+	w.nrec[side]++
+	if w.sc.flowType == 2 && w.nrec[side]%3 == 2 {
+		alt := sideVals{Str: map[string]string{}, U8: v.U8, U16: v.U16, I32: v.I32, IP: v.IP}
+		for k, x := range v.Str {
+			alt.Str[k] = x
+		}
+		if side == 0 {
+			alt.Str["sourcePodName"] = "src-pod-reused"
+		} else {
+			alt.Str["destinationPodName"] = "dst-pod-reused"
+		}
+		v = alt
+	}
 	rec := agg.Rec{Key: w.key, Node: node, FlowType: w.sc.flowType, Egress: w.sc.egress, Ingress: w.sc.ingress, Start: 1000, End: w.ends[side],
 		EndReason: 2, TCPState: "ESTABLISHED", Str: v.Str, U8: v.U8, U16: v.U16, I32: v.I32, IP: v.IP}
 	for i := 0; i < agg.NC; i++ {
